@@ -159,6 +159,7 @@ type DB struct {
 
 	incs           map[string]*incarnation
 	unsupported    []string
+	unsupportedWhy []string
 	unsupportedSet map[string]bool
 	plans          map[*stmt]*plan
 }
@@ -193,10 +194,11 @@ func (d *DB) inc(name string) *incarnation {
 	return in
 }
 
-func (d *DB) noteUnsupported(sql string) {
+func (d *DB) noteUnsupported(sql, why string) {
 	if !d.unsupportedSet[sql] {
 		d.unsupportedSet[sql] = true
 		d.unsupported = append(d.unsupported, sql)
+		d.unsupportedWhy = append(d.unsupportedWhy, why)
 	}
 }
 
@@ -282,6 +284,13 @@ func (d *DB) Unsupported() []string {
 	d.mu.Lock()
 	defer d.mu.Unlock()
 	return append([]string(nil), d.unsupported...)
+}
+
+// UnsupportedReasons returns, parallel to Unsupported, why each statement was refused.
+func (d *DB) UnsupportedReasons() []string {
+	d.mu.Lock()
+	defer d.mu.Unlock()
+	return append([]string(nil), d.unsupportedWhy...)
 }
 
 func (d *DB) KillIncarnation(incarnation string) {
